@@ -1,5 +1,139 @@
-import GIV.Model.ReadImports
+/-
+  C18 — imports.ReadImports returns exactly the file's imports and a safe prefix.
+
+  Model: GIV.Model.ReadImports (byte machine mirroring read.go; constants from GIV.Gen.Imports).
+  Specification: GIV.Lemmas.ImportsReadGrammar (inductive grammar of Go file headers with
+  `render` and `importsOf`).
+-/
+import GIV.Lemmas.ImportsReadMain
+import GIV.Lemmas.ImportsReadTotal
+import GIV.Lemmas.ImportsReadFuel
+
 namespace GIV.C18
-open GIV
+open GIV GIV.ReadImports
+
+/-- an example header:
+`<BOM>// c\npackage p\nimport "a"\nimport(\nx `b`\n)` followed by `\nfunc`. -/
+def exHeader : Header :=
+  { bom := true
+    pre := [.line [32, 99]]
+    sep := [.blank 32]
+    name := [112]
+    decls := [([.blank 10], .single [.blank 32] ⟨.none, [], .interp [.plain 97]⟩),
+              ([.blank 10], .group [] [([.blank 10], ⟨.ident [120], [.blank 32], .raw [98]⟩)] [.blank 10])] }
+
+example : exHeader.WF = true := by decide
+example : exHeader.importsOf = [[34, 97, 34], [96, 98, 96]] := by decide
+example : TailOK exHeader [.blank 10] [102, 117, 110, 99] :=
+  ⟨by decide, Or.inr (Or.inr ⟨102, _, rfl, by decide, by intro h; cases h⟩)⟩
+-- … or a last comment without newline: `// x`
+example : TailOK exHeader [.blank 10] [47, 47, 32, 120] :=
+  ⟨by decide, Or.inr (Or.inl ⟨[32, 120], rfl, by decide, by decide⟩)⟩
+
+/-- Soundness and completeness on the header grammar: for every well-formed header `h` (optional
+BOM, comments, semicolons, single and grouped, named / dot / blank imports, raw and interpreted
+path literals), followed by white space `tsp` and then the end of input, a last `//` comment without
+newline, or a byte that can start a non-import declaration, ReadImports — whatever
+`reportSyntaxError` is — returns exactly `importsOf h` in order, no error, and as bytes the header
+without its byte-order mark plus the white space (and final comment) after it: a prefix of the
+input (BOM aside) that contains the whole import section and stops before the first byte of the
+next declaration. -/
+theorem readImports_sound_complete (h : Header) (hw : h.WF = true) (tsp : Sp) (rest : Bytes)
+    (ht : TailOK h tsp rest) (report : Bool) :
+    readImports (h.render ++ renderSp tsp ++ rest) report =
+      .ok h.importsOf (h.body ++ renderSp tsp ++ keptTail rest) none :=
+  readImports_header h hw tsp rest ht report
+
+example : readImports (exHeader.render ++ renderSp [.blank 10] ++ [102, 117, 110, 99]) false =
+    .ok [[34, 97, 34], [96, 98, 96]] (exHeader.body ++ [10] ++ []) none :=
+  readImports_sound_complete exHeader (by decide) [.blank 10] [102, 117, 110, 99]
+    ⟨by decide, Or.inr (Or.inr ⟨102, _, rfl, by decide, by intro h; cases h⟩)⟩ false
+
+/-- The returned prefix is itself a header of the grammar with the same imports, followed by white
+space (and possibly a last comment) and the end of input — so running ReadImports on it again
+yields the same imports and returns it unchanged ("the returned portion still parses to those
+imports"). -/
+theorem readImports_prefix_reparses (h : Header) (hw : h.WF = true) (tsp : Sp) (rest : Bytes)
+    (ht : TailOK h tsp rest) (report : Bool) :
+    readImports (h.body ++ renderSp tsp ++ keptTail rest) report =
+      .ok h.importsOf (h.body ++ renderSp tsp ++ keptTail rest) none := by
+  have h' : ({ h with bom := false } : Header).WF = true := hw
+  have hc : keptTail rest = [] ∨ keptTail rest = rest := by
+    unfold keptTail
+    split
+    · exact Or.inr rfl
+    · exact Or.inl rfl
+  have hk : keptTail (keptTail rest) = keptTail rest := by
+    rcases hc with h0 | h0
+    · rw [h0]; rfl
+    · rw [h0]; exact h0
+  have ht' : TailOK { h with bom := false } tsp (keptTail rest) := by
+    refine ⟨ht.1, ?_⟩
+    rcases ht.2 with rfl | ⟨body, rfl, hb⟩ | ⟨d, tl, rfl, hd, _⟩
+    · exact Or.inl rfl
+    · exact Or.inr (Or.inl ⟨body, rfl, hb⟩)
+    · left
+      unfold keptTail
+      split
+      · next h0 =>
+        simp only [List.cons.injEq] at h0
+        rw [h0.1] at hd
+        exact absurd hd (by decide)
+      · rfl
+  have := readImports_header { h with bom := false } h' tsp (keptTail rest) ht' report
+  rw [hk] at this
+  simpa [Header.render, Header.body, Header.importsOf] using this
+
+example : readImports (exHeader.body ++ renderSp [.blank 10] ++ keptTail [102, 117, 110, 99]) true =
+    .ok exHeader.importsOf (exHeader.body ++ renderSp [.blank 10] ++ keptTail [102, 117, 110, 99]) none :=
+  readImports_prefix_reparses exHeader (by decide) [.blank 10] [102, 117, 110, 99]
+    ⟨by decide, Or.inr (Or.inr ⟨102, _, rfl, by decide, by intro h; cases h⟩)⟩ true
+
+/-! ### arbitrary bytes -/
+
+/-- For arbitrary input bytes ReadImports terminates without panicking and returns a result:
+the `nerr > 10000` "import reader looping" panic of peekByte is unreachable (the counter never
+exceeds 29), the final slice `r.buf[:len(r.buf)-1]` is in range, and no loop of the reader runs out
+of the fuel the model gives it (input length plus a small constant) — i.e. every Go loop ends. -/
+theorem readImports_total (d : Bytes) (report : Bool) :
+    ∃ imps buf err, readImports d report = .ok imps buf err := by
+  cases h : readImports d report with
+  | panic => exact absurd h (readImports_no_panic d report)
+  | stuck => exact absurd h (readImports_no_stuck d report)
+  | ok imps buf err => exact ⟨imps, buf, err, rfl⟩
+
+-- the counter bound behind it, on a concrete malformed input: `package p\nimport (` then EOF
+example : (scan [112, 97, 99, 107, 97, 103, 101, 32, 112, 10, 105, 109, 112, 111, 114, 116, 32, 40]).nerr ≤ 29 := by
+  have := (step_scan [112, 97, 99, 107, 97, 103, 101, 32, 112, 10, 105, 109, 112, 111, 114, 116, 32, 40]).2
+  simpa [St.init] using this
+
+/-- The returned bytes are a prefix of the input, the byte-order mark aside: only bytes read from
+the input are returned. -/
+theorem readImports_buf_prefix (d : Bytes) (report : Bool) (imps : List Bytes) (buf : Bytes)
+    (err : Option Err) (h : readImports d report = .ok imps buf err) : buf <+: stripBOM d :=
+  readImports_prefix d report imps buf err h
+
+example : (exHeader.body ++ [10] ++ []) <+: stripBOM (exHeader.render ++ renderSp [.blank 10] ++ [102, 117, 110, 99]) :=
+  readImports_buf_prefix _ false _ _ none
+    (readImports_sound_complete exHeader (by decide) [.blank 10] [102, 117, 110, 99]
+      ⟨by decide, Or.inr (Or.inr ⟨102, _, rfl, by decide, by intro h; cases h⟩)⟩ false)
+
+/-- When the reporting run ends in a syntax error, the non-reporting run returns the whole input
+(byte-order mark aside) and no error, so that a later full parse reports the same errors.
+Hypothesis: the input has no NUL byte — a NUL is a hard error of its own ("unexpected NUL in
+input"), reported whatever `reportSyntaxError` is, exactly as in go/build. -/
+theorem readImports_syntax_whole (d : Bytes) (imps : List Bytes) (buf : Bytes)
+    (h : readImports d true = .ok imps buf (some .syntax)) (hnul : (stripBOM d).all (· ≠ 0) = true) :
+    readImports d false = .ok imps (stripBOM d) none :=
+  readImports_whole_on_syntax d imps buf h hnul
+
+-- `package p\nimport x` : a syntax error (no path), and the whole input comes back when not reported
+example : readImports [112, 97, 99, 107, 97, 103, 101, 32, 112, 10, 105, 109, 112, 111, 114, 116, 32, 120] true =
+    .ok [] [112, 97, 99, 107, 97, 103, 101, 32, 112, 10, 105, 109, 112, 111, 114, 116, 32, 120] (some .syntax) := by
+  decide
+example : readImports [112, 97, 99, 107, 97, 103, 101, 32, 112, 10, 105, 109, 112, 111, 114, 116, 32, 120] false =
+    .ok [] [112, 97, 99, 107, 97, 103, 101, 32, 112, 10, 105, 109, 112, 111, 114, 116, 32, 120] none :=
+  readImports_syntax_whole _ [] [112, 97, 99, 107, 97, 103, 101, 32, 112, 10, 105, 109, 112, 111, 114, 116, 32, 120]
+    (by decide) (by decide)
 
 end GIV.C18
